@@ -107,7 +107,7 @@ theorem closeEffect_ok (cfg : Cfg) (c : Cli) (hk : cfg.kind ≠ .pool) (h : COk 
     clientOpen, partSent, tracked, inFd, polled⟩
   rcases cfg with ⟨kind, auth, nb⟩
   cases kind <;> cases phase <;>
-    simp_all (config := {decide := true}) [COk, Shape, Free, Served, Gone, closeEffect, shutOne, endServe, release, closeConn]
+    simp_all (config := {decide := true}) [COk, Shape, Free, Served, Gone, closeEffect, shutOne, endServeD, endServe, release, closeConn]
 
 /-- `ThreadPoolServer.close()`, client by client -/
 theorem poolCloseEffect_ok (cfg : Cfg) (c : Cli) (hk : cfg.kind = .pool) (h : COk cfg false c) :
@@ -178,10 +178,13 @@ theorem GOk.upd {s : St} (h : GOk s) (k : Nat) (c' : Cli) (hc : COk s.cfg s.clos
 @[simp] theorem kind_beq (a b : Kind) : (a == b) = decide (a = b) := rfl
 @[simp] theorem kind_bne (a b : Kind) : (a != b) = !decide (a = b) := rfl
 
+theorem endServeD_inst' (c : Cli) : (endServeD c).inst = c.inst := by
+  unfold endServeD endServe release closeConn; split <;> split <;> rfl
+
 theorem closeEffect_inst (c : Cli) : (closeEffect c).inst = c.inst := by
-  unfold closeEffect shutOne endServe release closeConn
+  unfold closeEffect shutOne
   split
-  · cases c.phase <;> simp <;> split <;> simp
+  · cases c.phase <;> simp [endServeD_inst', release]
   · split <;> simp
 
 theorem dropEffect_inst (c : Cli) : (dropEffect c).inst = c.inst := by
@@ -196,7 +199,7 @@ theorem closeEffect_not_idle (cfg : Cfg) (c : Cli) (hk : cfg.kind = .oneshot) (h
     clientOpen, partSent, tracked, inFd, polled⟩
   rcases cfg with ⟨kind, auth, nb⟩
   cases phase <;>
-    simp_all (config := {decide := true}) [COk, Shape, Free, Served, Gone, closeEffect, shutOne, endServe, release, closeConn]
+    simp_all (config := {decide := true}) [COk, Shape, Free, Served, Gone, closeEffect, shutOne, endServeD, endServe, release, closeConn]
 
 theorem dropEffect_closed (cfg : Cfg) (c : Cli) (hk : cfg.kind = .pool) (h : COk cfg true c) : dropEffect c = c := by
   rcases c with ⟨cred, phase, inbox, inst, connOpen, connHooks, discHooks, srvFd, shut, child, table, replies, nextSeq,
@@ -509,6 +512,7 @@ theorem GOk.send_end {s : St} (h : GOk s) (k : Nat) (it : Item) (hit : it = .bye
     have htr : (s.cli k).tracked = (s.cfg.kind == .threaded || s.cfg.kind == .oneshot) := hs.2.2.2.2.2.2.2.1
     have hfd : (s.cli k).inFd = (s.cfg.kind == .pool) := hs.2.2.2.2.2.2.2.2.2.2.1
     have hpo : (s.cli k).polled = (s.cfg.kind == .pool) := hs.2.2.2.2.2.2.2.2.2.2.2.1
+    have hsl : (s.cli k).slowHook = false := hc.1.2
     by_cases hpool : s.cfg.kind = .pool
     · have hcl' : s.closedFlag = false := by
         rcases hcl with h1 | h1
@@ -519,7 +523,6 @@ theorem GOk.send_end {s : St} (h : GOk s) (k : Nat) (it : Item) (hit : it = .bye
       have hb := h.b
       have hfw : s.cfg.nb ≠ 0 := by have := h.nb hpool; omega
       have hone : s.cfg.kind ≠ .oneshot := by simp [hpool]
-      have hsl : (s.cli k).slowHook = false := hc.1.2
       refine h.agree_free hone k ?_ ?_
       · constructor <;> rcases hit with rfl | rfl <;>
           simp [send, wake, hsh, hp, hpool, hin, poolWake, hup, hq, drain, freeWorkers, hfw, hb, poolServeOne, poolPlace,
@@ -541,23 +544,23 @@ theorem GOk.send_end {s : St} (h : GOk s) (k : Nat) (it : Item) (hit : it = .bye
         have hpo' : (s.cli k).polled = false := by simpa [hone] using hpo
         have hfd' : (s.cli k).inFd = false := by simpa [hone] using hfd
         rcases hit with rfl | rfl <;>
-          simp only [send, wake, set_cli_same, hsh, hp, hone, hin, runDedicated, applyConsumed, consume,
+          simp only [send, wake, set_cli_same, hsh, hp, hone, hin, runDedicated, applyConsumed, consume, endServeD, hsl,
             Bool.false_eq_true, if_false, if_true, List.nil_append, set_cfg, reduceCtorEq, endServe_phase] <;>
           refine h.afterEnd_oneshot hone hcl' k rfl (by simp [hcl']) (by simp [h.q]) (by simp [h.b]) (by simp [hpu])
             (by simpa using (h.oacc hone).1) ?_ ?_ ?_
         all_goals first
           | (intro j hj; simp [set_cli_ne _ _ _ _ hj]; done)
-          | (simpa [hpo', hfd', endServe, release, closeConn, hco] using hgk)
+          | (simpa [hpo', hfd', endServe, release, closeConn, hco, hsl] using hgk)
           | (intro _; left; simpa using hs.2.2.1)
       · have hpb : (s.cfg.kind == Kind.pool) = false := by simp [hpool]
         refine h.agree_free hone k ?_ ?_
         · constructor <;> rcases hit with rfl | rfl <;>
             simp [send, wake, hsh, hp, hpool, hone, hin, runDedicated, applyConsumed, consume, afterEnd, dedFrames,
-              endServe, release] <;>
+              endServeD, hsl, endServe, release] <;>
             (intro j hj; simp [set_cli_ne _ _ _ _ hj])
         · rcases hit with rfl | rfl <;>
             simpa [send, wake, hsh, hp, hpool, hone, hin, runDedicated, applyConsumed, consume, afterEnd, dedFrames,
-              endServe, release, closeConn, hco, htr, hfd, hpo, hpb] using hg [] .idle
+              endServeD, hsl, endServe, release, closeConn, hco, htr, hfd, hpo, hpb] using hg [] .idle
   · have hsh : (s.cli k).shut = true := (hc.done hp).1
     refine h.agree k ?_ ?_ ?_ ?_
     · constructor <;> simp [send, hsh]
@@ -934,7 +937,7 @@ theorem GOk.run {s : St} (h : GOk s) (ops : List Op) (hops : ∀ op ∈ ops, op.
 @[simp] theorem poolAuthGone_cfg (s : St) (k : Nat) : (poolAuthGone s k).cfg = s.cfg := by
   unfold poolAuthGone; simp
 @[simp] theorem wake_cfg (s : St) (k : Nat) : (wake s k).cfg = s.cfg := by
-  unfold wake; split <;> (try split) <;> (try split) <;> simp
+  unfold wake; split <;> (try split) <;> (try split) <;> (try split) <;> simp
 @[simp] theorem send_cfg (s : St) (k : Nat) (l : List Item) : (send s k l).cfg = s.cfg := by
   unfold send; split <;> simp
 
@@ -952,6 +955,9 @@ theorem GOk.run {s : St} (h : GOk s) (ops : List Op) (hops : ∀ op ∈ ops, op.
   · split
     · split <;> simp
     · simp
+
+@[simp] theorem dedRelease_cfg (s : St) (k : Nat) : (dedRelease s k).cfg = s.cfg := by
+  unfold dedRelease; simp
 
 theorem step_cfg {s s' : St} {o : Obs} (op : Op) (h : step s op = .ok (s', o)) : s'.cfg = s.cfg := by
   cases op with
